@@ -193,6 +193,14 @@ def cases(tier, seed):
     for s in (" ".join(long_word[i:i + 10] for i in range(0, 400, 10)), "\n".join(long_word[:120]), "\t \n".join(long_word[:40]),
               " ".join(long_word[:33]), " ".join(long_word[:34]), "\r\n".join(long_word[i:i + 3] for i in range(0, 300, 3))):
         yield {"s": s, "runs": 1}
+    # decorations of other notations around or inside a valid word: terminal-group labels of peptide chemistry, residue
+    # numbering of database records, lone surrogates left by a lossy decode
+    for base in bases[:2] + ["MKV"]:
+        for s in ("Ac-" + base + "-NH2", "H-" + base + "-OH", base + "-NH2", "Ac-" + base, "NH2-" + base + "-COOH", "H2N-" + base, base + "-CONH2",
+                  "1 " + base, base + " %d" % len(base), "1 " + base + " %d" % len(base), base[:2] + " " + base[2:] + " %d" % len(base),
+                  "%d %s" % (1, base[:3]) + "\n%d %s" % (4, base[3:]), base + "\n//", "SQ " + base,
+                  base[:3] + "\udc80" + base[3:], "\ud800" + base, base + "\udfff", base[:1] + "\udcff\udc80" + base[1:]):
+            yield {"s": s, "escape": 1}
     # escape sequences of other formats inside (or instead of parts of) a valid word: URL / quoted-printable / HTML / C escapes
     # are several foreign characters, not blanks or residues
     for base in bases[:2] + ["MKD"]:
